@@ -532,6 +532,20 @@ fn ep_c09(s: &mut S, r: &mut Rng, maxc: usize, maxr: usize) {
     v.push(']');
     s.note("input_lines", &v);
     s.rel("TextOK", &[a, b, c]);
+    // "whatever the terminal width": also after the width changed under the text
+    if r.chance(1, 2) {
+        for slot in [a, b, c] {
+            if !s.alive(slot) {
+                return;
+            }
+            let (c0, r0) = s.vt(slot).size();
+            let (nc, nr) = next_size(r, c0, r0, maxc, maxr);
+            s.resize(slot, nc, nr, true);
+            s.text(slot);
+        }
+        s.note("input_lines", &v);
+        s.rel("TextOK", &[a, b, c]);
+    }
 }
 
 // ---------------------------------------------------------------------------------- C10
@@ -1096,7 +1110,10 @@ fn ep_c19(s: &mut S, r: &mut Rng, maxc: usize, maxr: usize) {
     }
     // optionally leave the parser inside a sequence / string
     if r.chance(1, 2) {
-        let t = *r.pick(&["\x1b]0;title", "\x1bP1;2|abc", "\x1b_apc", "\x1b^pm", "\x1bXsos", "\x1b[12;3", "\x1b[?1", "\x1b[1 ", "\x1b[:", "\x1b(", "\x1b", "\u{90}:", "\u{9b}"]);
+        let t = *r.pick(&["\x1b]0;title", "\x1bP1;2|abc", "\x1b_apc", "\x1b^pm", "\x1bXsos", "\x1b[12;3", "\x1b[?1", "\x1b[1 ", "\x1b[:", "\x1b(", "\x1b", "\u{90}:", "\u{9b}",
+            "\x1b[0;0;0;0;0;0;0;0;0;0;0;0;0;0;0;0;0;0;0;0;0;0;0;0;0;0;0;0;0;0;0;1",
+            "\x1b[1;2;3;4;5;6;7;8;9;10;11;12;13;14;15;16;17;18;19;20;21;22;23;24;25;26;27;28;29;30;31;32;33",
+            "\x1bP1;1;1;1;1;1;1;1;1;1;1;1;1;1;1;1;1;1;1;1;1;1;1;1;1;1;1;1;1;1;1;7", "\x1b[38:2:1:2:3:4"]);
         s.feed_str(a, t, true);
     }
     let t = if r.chance(1, 4) { "\x1b\x01c" } else { "\x1bc" };
@@ -1111,7 +1128,11 @@ fn ep_c19(s: &mut S, r: &mut Rng, maxc: usize, maxr: usize) {
         if !s.alive(a) || !s.alive(b) {
             return;
         }
-        let t = if r.chance(1, 2) { r.pick(PROBES).to_string() } else { gen::token(r, &wt, c, rr) };
+        let t = match r.n(5) {
+            0 | 1 => r.pick(PROBES).to_string(),
+            2 => format!("\x1b[{}mX", ";".repeat(r.range(29, 33))), // reads every parameter slot
+            _ => gen::token(r, &wt, c, rr),
+        };
         s.feed_str(a, &t, true);
         s.feed_str(b, &t, true);
         s.rel("FreshEq", &[a, b]);
@@ -1194,7 +1215,7 @@ fn ep_c08x(s: &mut S, r: &mut Rng, shard: u64, shards: u64) {
 fn ep_c20x(s: &mut S, r: &mut Rng, _maxc: usize, _maxr: usize, shard: u64, shards: u64) {
     let params = ["", "4", "20", "1", "6", "7", "25", "1047", "1049", "2", "3", "5", "0", "1;1", "4;20", "8;2;2", "65535"];
     let prefixes = ["", "?", "<", "=", ">"];
-    let inters = ["", " ", "!", "$", "#"];
+    let inters = ["", " ", "!", "$", "#", "! ", "!$"];
     let mut k = 0u64;
     for fin in 0x40u8..=0x7e {
         for pre in prefixes {
